@@ -26,6 +26,11 @@ PSEC_DIR = os.path.join(os.path.abspath(REPO), "psec") + os.sep
 _extra = {}
 
 
+from props.cardutil import corpus as _corpus
+RARE_CVV = _corpus("C09") + _corpus("C09", "rare2.jsonl")
+RARE_PVV = _corpus("C10") + _corpus("C10", "patterns.jsonl")
+
+
 def prepare():
     an = effects.run(REPO, os.path.join(LEAN_DIR, "PsecModel", "Generated", "Effects.lean"))
     _extra["effect_summary"] = {"functions": len(an.fns),
@@ -71,9 +76,15 @@ def workload(rng, n):
         elif k == 7:
             items.append((f"mac.pad_iso_{rng.choice((1, 2, 3))}", (bytearray(rb(rng, rng.randrange(0, 20))), rng.choice((None, 8, 16))), "plain", None))
         elif k == 8:
-            items.append(("cvv.generate_cvv", (rb(rng, 16), digits(rng, 16), digits(rng, 4), digits(rng, 3)), "plain", None))
+            # half of the CVV / PVV items take the rare second decimalisation pass (inputs from the corpus): repetition and
+            # interleaving must not matter there either
+            e = rng.choice(RARE_CVV) if RARE_CVV and rng.random() < 0.5 else None
+            items.append(("cvv.generate_cvv", (bytes.fromhex(e["cvk"]), e["pan"], e["expiry"], e["svc"]) if e else
+                          (rb(rng, 16), digits(rng, 16), digits(rng, 4), digits(rng, 3)), "plain", None))
         elif k == 9:
-            items.append(("pin.generate_visa_pvv", (dk, digits(rng, 1), digits(rng, 4), digits(rng, 16)), "plain", None))
+            e = rng.choice(RARE_PVV) if RARE_PVV and rng.random() < 0.5 else None
+            items.append(("pin.generate_visa_pvv", (bytes.fromhex(e["pvk"]), e["pvki"], e["pin"], e["pan"]) if e else
+                          (dk, digits(rng, 1), digits(rng, 4), digits(rng, 16)), "plain", None))
         elif k == 10:
             items.append(("pin.generate_ibm3624_pin", (dk, digits(rng, 16), digits(rng, 6), digits(rng, 16), 2, 12, "F"), "plain", None))
         elif k == 11:
